@@ -19,7 +19,8 @@ driver.setup_env()
 import numpy as np
 
 from checks import c07_ref as ref
-from checks.c07_common import LATTICES, compare, conform, same
+from checks.c07_common import (FAR_LONGITUDES, LATTICES, compare, conform,
+                                same)
 
 PROP = "C07"
 LEVEL = "exploration"
@@ -30,14 +31,25 @@ RULE = ("graph: 6 ellipsoids + WGS84 as default argument x start node "
         "geocentric latitude) x call shape {one scalar call per point, one "
         "1-D array, one 3-D array, broadcast blocks (geodetic: scalar h x "
         "lat column x lon row; others: per latitude, h column x lon row)} x "
-        "every path of 1..4 (quick) / 1..6 (thorough) conversion calls; one "
-        "case = one (input block, path), compared at its end node with the "
-        "longdouble reference of the initial coordinates. Non-trivial = path "
-        "of >= 2 calls (a composition). radii: 6 ellipsoids x every (lat, "
-        "lon) of the lattice as scalars + once as arrays; non-trivial = "
-        "eccentric ellipsoid off the equator. poslos: r x lat x lon x za x "
-        "aa (quick 3x8x8x5x7, thorough 3x14x12x8x10) as scalars, 1-D, 5-D, "
-        "broadcast axes and scalar+azimuth vector; non-trivial = off "
+        "every path of 1..4 (quick) / 1..6 (thorough) conversion calls; the "
+        "array shapes of the geodetic and geocentric start hold 4 more "
+        "longitudes outside [-180, 180] (-270, 270, 359.999, 360). With "
+        "paths of 1..2 calls (only the first call sees the argument): these "
+        "4 longitudes x all lat x all heights as scalar calls, and the "
+        "integral lattice points with |lat| < 88, 0 <= h <= 10 km, start "
+        "coordinates rounded to whole numbers, as Python ints and as int64 "
+        "arrays. One case = one (input block, path), compared at its end "
+        "node with the longdouble reference of the initial coordinates. "
+        "Non-trivial = path of >= 2 calls (a composition). radii: 6 "
+        "ellipsoids x every (lat, lon) of the lattice as scalars + once as "
+        "arrays; non-trivial = eccentric ellipsoid off the equator. poslos: "
+        "r x lat x lon x za x aa (quick 3x8x8x5x7, thorough 3x14x12x8x10) "
+        "as scalars, 1-D, 5-D, broadcast axes and scalar+azimuth vector; "
+        "plus per radius aa in {0, 180} x all za (meridian) and za in {0.01, "
+        "179.9} (thorough: 0.01, 0.1, 179.9, 179.99) x all aa (near-zenith) "
+        "as scalars and as one array; "
+        "every call with array arguments is repeated with the cartesian "
+        "line of sight scaled by 1e-3 and by 7; non-trivial = off "
         "equator/prime meridian, za != 90, |aa| != 90. dist: all ordered "
         "pairs (scalar, 1-D, 2-D, broadcast calls; 4 longitude shifts) and "
         "all ordered triples of a 40 (quick) / 96 (thorough) point lattice; "
@@ -60,10 +72,26 @@ ASSUMPTIONS = [
     "great_circle_distance/tunnel_distance are compared with the central "
     "angle / chord they are documented to return",
     "zenith/nadir/pole singular cases of the POS/LOS functions and the "
-    "optional lat0/lon0/za0/aa0/ppc arguments are outside the statement",
+    "optional lat0/lon0/za0/aa0/ppc arguments are outside the statement; "
+    "within 0.1 deg of zenith/nadir and in the meridian plane the azimuth "
+    "tolerance is the float64 conditioning bound of an evaluation from the "
+    "cartesian line of sight (c07_poslos.near_units, c07_common.KINDS) "
+    "instead of 1e-6 deg",
+    "POS/LOS longitudes stay within [-180, 180]: geocentricposlos2cart "
+    "rejects others with an explicit range error, taken as its domain",
+    "a line of sight is a direction: cartposlos2geocentric has to return "
+    "the same angles for every positive multiple of (dx, dy, dz) (its "
+    "docstring: 'normalizing the los-vector')",
 ]
 
 SHAPES = ("scalar", "flat", "grid", "bcast")
+# Python ints / int64 arrays, and scalar calls with a longitude outside
+# [-180, 180] (the array shapes hold these longitudes anyway). Only the first
+# call of a path sees such an argument - every result is a float with a
+# longitude in [-180, 180] - so paths of <= 2 calls cover them.
+INT_SHAPES = ("int-scalar", "int-flat")
+FAR_SCALAR = "far-scalar"
+SHORT_MAXLEN = 2
 DEFAULT = "WGS84 (default argument)"
 
 # node -> outgoing (function, target node)
@@ -106,6 +134,8 @@ def shards(tier, seed):
                 for row in rows]
         out += [("graph", tier, name, start, shape, None, maxlen)
                 for shape in SHAPES[1:]]
+        out += [("graph", tier, name, start, shape, None, SHORT_MAXLEN)
+                for shape in INT_SHAPES + (FAR_SCALAR,) * (start != "C")]
     out += [("radii", tier, name) for name in names if name != DEFAULT]
     from checks import c07_distance, c07_poslos
     out += c07_poslos.shards(tier, seed)
@@ -144,18 +174,31 @@ class Item:
 def items(tier, ell_ae, start, shape, row):
     a, e = ell_ae
     lats, lons, heights = LATTICES[tier]
-    if shape == "scalar":
+    if shape == FAR_SCALAR:
+        lons = FAR_LONGITUDES
+    elif shape == "scalar":
         lats = lats[row:row + 1]
+    elif start != "C":          # a cartesian position has no longitude
+        lons = lons + FAR_LONGITUDES
+    if shape in INT_SHAPES:
+        # integral lattice points; rounding the start coordinates to whole
+        # metres moves a point by < 1 m, so stay inside the stated domain
+        lats = [v for v in lats if v == int(v) and abs(v) < 88]
+        lons = [v for v in lons if v == int(v)]
+        heights = [v for v in heights if v == int(v) and 0 <= v <= 10e3]
     if shape != "bcast":
         lat, lon, h = np.meshgrid(lats, lons, heights, indexing="ij")
         coords = initial_coordinates(start, a, e, lat, lon, h)
         if shape == "grid":
             return [Item(0, coords, ref.reference(a, e, start, coords))]
         coords = tuple(c.ravel() for c in coords)
+        if shape in INT_SHAPES:     # lon = +-180 coincide once rounded
+            points = dict.fromkeys(zip(*(np.rint(c).tolist() for c in coords)))
+            coords = tuple(np.array(c, dtype=np.int64) for c in zip(*points))
         full = ref.reference(a, e, start, coords)
-        if shape == "flat":
+        if shape in ("flat", "int-flat"):
             return [Item(0, coords, full)]
-        return [Item(n, tuple(float(c[n]) for c in coords),
+        return [Item(n, tuple(c[n].item() for c in coords),
                      {k: tuple(v[n] for v in t) for k, t in full.items()})
                 for n in range(coords[0].size)]
     out = []
